@@ -61,6 +61,15 @@ class Script:
                     h.pending_loss = True
 
 
+class EffortDoesNotEnd(Exception):
+    """Raised inside the client's reconnection effort by the harness when it
+    has made more back-off waits than any scenario allows (an effort that
+    loops without ever reaching the transport would otherwise never end)."""
+
+
+MAX_WAITS = 60
+
+
 class Scenario:
     def __init__(self, ctx, kind, params, pattern, nss, cause, abort_at=None,
                  then=None):
@@ -74,6 +83,13 @@ class Scenario:
         # still ask for every namespace of the original connection
         self.pre_disc = cause == 'loss_after_ns_disconnect'
         if self.pre_disc:
+            cause = 'loss'
+        # 'loss_slow_handler': the application's disconnect handlers are
+        # still busy while the first back-off delays would already have
+        # elapsed (asyncio: they sleep; threaded: other threads - the
+        # reconnect task among them - run while the handler is parked)
+        self.slow_disc = cause == 'loss_slow_handler'
+        if self.slow_disc:
             cause = 'loss'
         self.cause = cause
         self.abort_at = abort_at
@@ -114,7 +130,17 @@ class Scenario:
             # back to back and the handlers overlap - asyncio: they suspend;
             # threaded (a thread per message): the thread of the first one
             # is parked in its handler while the others run start to finish
-            if h.is_async and overlap:
+            if h.is_async and self.slow_disc:
+                async def on_disconnect(r):
+                    self.events.append(('disconnect', ns, r,
+                                        len(h.attempts)))
+                    await asyncio.sleep(25)
+            elif self.slow_disc:
+                def on_disconnect(r):
+                    self.events.append(('disconnect', ns, r,
+                                        len(h.attempts)))
+                    h.pump()
+            elif h.is_async and overlap:
                 async def on_disconnect(r):
                     self.events.append(('disconnect', ns, r,
                                         len(h.attempts)))
@@ -130,7 +156,7 @@ class Scenario:
             return on_disconnect
         for ns in nss:
             h.c.on('connect', mk_connect(ns), namespace=ns)
-            if overlap:
+            if overlap or self.slow_disc:
                 h.c.on('disconnect', mk_disconnect(ns), namespace=ns)
             else:
                 h.on('disconnect', mk_disconnect(ns), ns)
@@ -194,6 +220,9 @@ class Scenario:
                     return False
                 state[ev] = ev.wait_seq
                 self.backoff.append(tmo)
+                if len(self.backoff) > MAX_WAITS:
+                    raise EffortDoesNotEnd('%d back-off waits' %
+                                           len(self.backoff))
                 if self.abort_at is not None and \
                         len(self.backoff) == self.abort_at:
                     state['aborted'] = True
@@ -223,6 +252,8 @@ class Scenario:
             if self.pre_disc and len(self.nss) > 1:
                 h.server_send(R.DISCONNECT, self.nss[0])
                 self.ctx.count('namespace_ended_before_the_loss')
+            if self.slow_disc:
+                self.ctx.count('losses_with_slow_disconnect_handler')
             h.lose()
         elif c == 'client_disconnect':
             h.api('disconnect')
@@ -284,6 +315,9 @@ class Scenario:
                 name = ''
             if name == '_handle_reconnect':
                 sc.backoff.append(timeout)
+                if len(sc.backoff) > MAX_WAITS:
+                    raise EffortDoesNotEnd('%d back-off waits' %
+                                           len(sc.backoff))
                 if sc.abort_at is not None and \
                         len(sc.backoff) == sc.abort_at:
                     h.loop.create_task(c.shutdown())
@@ -303,6 +337,8 @@ class Scenario:
                         await asyncio.sleep(0)
                         await asyncio.sleep(0)
                         self.ctx.count('namespace_ended_before_the_loss')
+                    if self.slow_disc:
+                        self.ctx.count('losses_with_slow_disconnect_handler')
                     await h.a_lose()
                 elif cse == 'client_disconnect':
                     await c.disconnect()
@@ -331,7 +367,8 @@ class Scenario:
     def horizon(self):
         d, dmax, rf, att = self.params
         n = len(self.pattern) + 2
-        return n * (max(d, dmax) + rf + 3) + 5
+        return n * (max(d, dmax) + rf + 3) + 5 + (
+            60 * len(self.nss) if self.slow_disc else 0)
 
     def follow_up_async(self, url, kw):
         h = self.h
@@ -501,6 +538,7 @@ def run(ctx):
     ctx.require('scenarios_judged', 300)
     ctx.require('namespace_ended_before_the_loss', 4)
     ctx.require('overlapping_server_disconnects', 4)
+    ctx.require('losses_with_slow_disconnect_handler', 4)
     ctx.require('backoff_waits_checked', 300)
     ctx.require('successful_reconnections', 50)
     ctx.require('efforts_given_up', 20)
@@ -521,6 +559,11 @@ def run(ctx):
             for params in [(1, 5, 0, 0), (0.5, 1, 0.5, 3)]:
                 jobs.append((kind, params, p, 'loss_after_ns_disconnect',
                              None, None))
+    for p in ['', 'T', 'N']:
+        for kind in ('sync', 'async'):
+            for params in [(1, 5, 0, 0), (0.5, 1, 0.5, 3), (1, 5, 0, 2)]:
+                jobs.append((kind, params, p, 'loss_slow_handler', None,
+                             None))
     # intentional ends
     for cause in ('client_disconnect', 'server_disconnect_last',
                   'server_close', 'disabled', 'server_disconnect_overlap'):
